@@ -370,7 +370,7 @@ def run_shard(ctx):
     ctx.sample({"call": {"op": "decrypt", "alg": "A128KW", "enc": "A128GCM", "zip": "DEF", "allow": ["A128KW", "A128GCM"]}, "expected": "UnsupportedAlgorithmError (DEF unlisted)"})
 
 
-REQUIRE = [("calls", 5000, "calls judged"), ("model_method_events", 5000, "algorithm-model method events seen by the trace monitor"),
+REQUIRE = [("calls", 2000, "calls judged"), ("model_method_events", 2000, "algorithm-model method events seen by the trace monitor"),
            ("fingerprints_taken", 50, "state fingerprints"), ("registrations", 1, "explicit draft registration inside a history")]
 
 
